@@ -4,9 +4,11 @@ concrete replay, those named -h (harmless) must stay quiet."""
 import subprocess, sys, os, json, glob, shutil
 W=os.path.dirname(os.path.dirname(os.path.dirname(os.path.abspath(__file__))))
 MUTS = {
- 'C14-m1-skip-sort-when-nonempty': ('C14','util/resolve/client.go',
-   "\t\tversions = append(versions, v)\n\t\tSortVersions(versions)\n",
-   "\t\tversions = append(versions, v)\n\t\tif len(versions) == 1 {\n\t\t\tSortVersions(versions)\n\t\t}\n"),
+ 'C14-m1-no-sort-after-replace': ('C14','util/resolve/client.go',
+   "\t\tversions = append(versions, v)\n\t}\n\tSortVersions(versions)\n",
+   "\t\tversions = append(versions, v)\n\t\tSortVersions(versions)\n\t}\n"),
+ 'C14-m0-replace-stores-old': ('C14','util/resolve/client.go',
+   "\t\t\tversions[i] = v\n", "\t\t\tversions[i] = w\n"),
  'C14-m2-requirements-stale': ('C14','util/resolve/client.go',
    "\tlc.imports[v.VersionKey] = deps\n",
    "\tif _, ok := lc.imports[v.VersionKey]; !ok {\n\t\tlc.imports[v.VersionKey] = deps\n\t}\n"),
@@ -22,8 +24,8 @@ MUTS = {
    'return Version{}, fmt.Errorf("version %v: %w", vk, ErrNotFound)',
    'return Version{}, fmt.Errorf("no such version %v: %w", vk, ErrNotFound)'),
  'C14-h2-harmless-loop-shape': ('C14','util/resolve/client.go',
-   "\tfor i, w := range versions {\n\t\tif w.VersionKey == v.VersionKey {\n\t\t\texisted = true\n\t\t\tversions[i] = w\n\t\t}\n\t}\n",
-   "\tfor i := 0; i < len(versions); i++ {\n\t\tif versions[i].VersionKey == v.VersionKey {\n\t\t\texisted = true\n\t\t\tbreak\n\t\t}\n\t}\n"),
+   "\tfor i, w := range versions {\n\t\tif w.VersionKey == v.VersionKey {\n\t\t\texisted = true\n\t\t\tversions[i] = v\n\t\t}\n\t}\n",
+   "\tfor i := 0; i < len(versions); i++ {\n\t\tif versions[i].VersionKey == v.VersionKey {\n\t\t\texisted = true\n\t\t\tversions[i] = v\n\t\t\tbreak\n\t\t}\n\t}\n"),
  'C12-m1-no-lexical-tiebreak': ('C12','util/resolve/match.go',
    "\t\t// Otherwise order lexicographically.\n\t\treturn a.VersionKey.Version < b.VersionKey.Version\n",
    "\t\treturn false\n"),
